@@ -13,9 +13,13 @@ EXTENDS Cors, DispatchTrace
 
 Conf(c) == [ao |-> [star |-> c.ao.star, set |-> Range(c.ao.set)], ac |-> [star |-> c.ac.star, set |-> Range(c.ac.set)],
             eh |-> c.eh]
+(* the objects the harness handed to the constructor (forms as it built them), as sets / sequences *)
+CallerOf(a) == [ao |-> Arg(a.ao.form, a.ao.star, Range(a.ao.items)), ac |-> Arg(a.ac.form, a.ac.star, Range(a.ac.items)),
+                eh |-> EhArg(a.eh.form, a.eh.items)]
 CTInit == /\ TInit
           /\ wiring = Traces[tid].wiring /\ cfg = Conf(Traces[tid].cfg) /\ other = Traces[tid].other
-          /\ guard = 0 /\ ans = NoAns
+          /\ guard = 0 /\ ans = NoAns /\ served = 0 /\ memo = NoMemo
+          /\ caller = CallerOf(Traces[tid].caller)
 
 ObsSet(x) == [has |-> x.has, v |-> Range(x.v)]
 JudgeCors ==
@@ -34,10 +38,21 @@ JudgeCors ==
 
 CStep ==
     /\ l >= 1 /\ l <= Len(T.ev) /\ verdict = "ok"
-    /\ verdict' = (CASE Ev.op = "req" -> JudgeCors [] Ev.op = "route" -> JudgeRoute [] Ev.op = "sink" -> JudgeSink [] OTHER -> "ok")
+    /\ verdict' = (CASE Ev.op = "req" -> JudgeCors [] Ev.op = "route" -> JudgeRoute [] Ev.op = "sink" -> JudgeSink
+                         [] Ev.op = "mutate" -> (IF Ev.opt \in {"ao", "ac", "eh"} /\ caller[Ev.opt].form \in MutableForms
+                                                 THEN "ok" ELSE "H:mutate")
+                         [] OTHER -> "ok")
     /\ Apply
-    /\ UNCHANGED <<wiring, cfg, other, guard, ans>>
+    /\ served' = (IF Ev.op = "req" THEN served + 1 ELSE served)
+    (* "mutate": the harness mutated the object it had passed to the constructor; the caller's object moves, the policy
+       (cfg) does not - every later request is still judged against the configuration at construction *)
+    /\ caller' = (IF Ev.op # "mutate" THEN caller
+                  ELSE IF Ev.opt = "eh"
+                       THEN [caller EXCEPT !.eh.items = IF Ev.how = "add" THEN Append(@, Ev.item)
+                                                        ELSE SelectSeq(@, LAMBDA y : y # Ev.item)]
+                       ELSE [caller EXCEPT ![Ev.opt].items = IF Ev.how = "add" THEN @ \cup {Ev.item} ELSE @ \ {Ev.item}])
+    /\ UNCHANGED <<wiring, cfg, other, guard, ans, memo>>
 
-CDone == Done /\ UNCHANGED <<wiring, cfg, other, guard, ans>>
+CDone == Done /\ UNCHANGED <<wiring, cfg, other, guard, ans, caller, served, memo>>
 CTNext == CStep \/ CDone
 ==========================================================================
